@@ -16,6 +16,7 @@
    Parsing and printing only. *)
 open Util
 open BinNums
+open ByteSeq
 open FlatModel
 
 let hexbyte s i = hexval s.[i] * 16 + hexval s.[i + 1]
